@@ -24,6 +24,8 @@ def applyReplyTweaks (s : String) (m : Packet) : Res Packet :=
     | ["tok", h] => m.setToken (bytesOfHex h)
     | ["typ", t] => .ok { m with header := m.header.setType (mtypeOf (nat! t)) }
     | ["clr", n] => .ok (m.clearOption (optNum n))
+    | ["code", c] => .ok { m with header := { m.header with code := MessageClass.ofU8 (nat! c) } }
+    | ["pay", h] => .ok { m with payload := bytesOfHex h }
     | _ => .ok m)) (.ok m)
 
 /-- tweaks of the request message: rmid= rtok= -/
